@@ -97,6 +97,29 @@ func decodeGuards() []rules.RequiredGuard {
 				return ok && core.TypeStr(info.TypeOf(s)) == "bool" && s.Sel.Name == "hasValue"
 			}},
 		{Rel: "internal/codec", Func: "decoder.jsonObjectBody", What: "a non-string object key token is rejected", Match: assertThenNotOk("string")},
+		{Rel: "internal/codec", Func: "decoder.jsonObjectBody", What: "a key that is repeated in one object is rejected (in a map of scalars or enums the later value would silently replace the earlier one)",
+			Match: func(info *types.Info, ifs *ast.IfStmt, prev ast.Stmt) bool {
+				// `if _, dup := seen[key]; dup` or `if seen[key]` on a map keyed by string
+				isProbe := func(e ast.Expr) bool {
+					ix, ok := core.Unparen(e).(*ast.IndexExpr)
+					if !ok {
+						return false
+					}
+					m, ok := info.TypeOf(ix.X).Underlying().(*types.Map)
+					if !ok {
+						return false
+					}
+					b, ok := m.Key().Underlying().(*types.Basic)
+					return ok && b.Kind() == types.String
+				}
+				if as, ok := ifs.Init.(*ast.AssignStmt); ok && len(as.Lhs) == 2 && len(as.Rhs) == 1 && isProbe(as.Rhs[0]) {
+					return core.ExprStr(ifs.Cond) == core.ExprStr(as.Lhs[1])
+				}
+				if as, ok := prev.(*ast.AssignStmt); ok && len(as.Lhs) == 2 && len(as.Rhs) == 1 && isProbe(as.Rhs[0]) {
+					return core.ExprStr(ifs.Cond) == core.ExprStr(as.Lhs[1])
+				}
+				return isProbe(ifs.Cond)
+			}},
 		{Rel: "internal/codec", Func: "decoder.decodeScalar", What: "an object/array where a scalar is expected is rejected", Match: assertThenOk("encoding/json.Delim")},
 		{Rel: "internal/codec", Func: "decoder.decodeArrayFieldValue", What: "an object/array where a scalar array element is expected is rejected", Match: assertThenOk("encoding/json.Delim")},
 		{Rel: "internal/codec", Func: "decoder.decodeMapField", What: "an object/array where a scalar map value is expected is rejected", Match: assertThenOk("encoding/json.Delim")},
@@ -105,6 +128,21 @@ func decodeGuards() []rules.RequiredGuard {
 		{Rel: "internal/codec", Func: "decoder.decodeAny", What: "an Any without \"!type\" is rejected", TopLevel: true, Match: nilTest(token.EQL, "*string")},
 		{Rel: "internal/codec", Func: "decoder.decodeAny", What: "an Any without a value is rejected", TopLevel: true, Match: nilTest(token.EQL, "[]byte")},
 		{Rel: "internal/codec", Func: "decoder.decodeAny", What: "an Any with more than one value key is rejected", Match: nilTest(token.NEQ, "[]byte")},
+		{Rel: "internal/codec", Func: "decoder.decodeAny", What: "a member of an Any other than \"!type\" and \"value\" is rejected (an unknown key)",
+			Match: func(info *types.Info, ifs *ast.IfStmt, prev ast.Stmt) bool {
+				return rules.CondHas(ifs.Cond, func(e ast.Expr) bool {
+					b, ok := core.Unparen(e).(*ast.BinaryExpr)
+					if !ok || b.Op != token.NEQ {
+						return false
+					}
+					for _, side := range []ast.Expr{b.X, b.Y} {
+						if s, ok := core.ConstString(info, side); ok && s == "value" {
+							return true
+						}
+					}
+					return false
+				})
+			}},
 		{Rel: "internal/codec", Func: "decoder.expectDelim", What: "a token other than the expected delimiter is rejected",
 			Match: func(info *types.Info, ifs *ast.IfStmt, prev ast.Stmt) bool {
 				b, ok := core.Unparen(ifs.Cond).(*ast.BinaryExpr)
@@ -136,6 +174,9 @@ func C03(r *core.Run) {
 	kindSpellings(r)
 	floatBits(r)
 	dateExists(r)
+	timestampInRange(r)
+	documentEnds(r)
+	nullArmNotCounted(r)
 	r.Tick("rest")
 }
 
